@@ -264,6 +264,14 @@ func run(c *core.Ctx) {
 					err = f(&spb.Attestation{Report: &spb.Report{Measurement: m.b}}, t.raw)
 				})
 				judge("SNPValidateFunc", reqKind, m.kind, err == nil, ok48, det)
+				if req == 0 {
+					// the caller left the SNP options out altogether (no count named, nothing pinned)
+					c.Guard(i, "SNPValidateFunc(no-snp-options)", gname, core.Budget{PanicNotJudged: true}, func() {
+						f := verify.SNPValidateFunc(&verify.Options{RootsOfTrust: roots, Now: now})
+						err = f(&spb.Attestation{Report: &spb.Report{Measurement: m.b}}, t.raw)
+					})
+					judge("SNPValidateFunc(no-snp-options)", reqKind, m.kind, err == nil, ok48, det)
+				}
 				c.Guard(i, "SevValidate", gname, core.Budget{PanicNotJudged: true}, func() {
 					err = gcetcbendorsement.SevValidate(ctx, gen.SnpAttestation(m.b, vcek), &gcetcbendorsement.SevValidateOptions{Endorsement: t.e, RootsOfTrust: roots, Now: now, ExpectedLaunchVmsas: req})
 				})
